@@ -4,7 +4,7 @@ import sys
 EXC_CLASSES = ['Boom', 'ValueError', 'KeyError', 'AssertionError', 'OSError', 'RuntimeError', 'TypeError',
                'ts.CastError', 'ts.CastErrorWithErrors', 'ts.ValidationError', 'ts.UniqueKeyError', 'ts.TableSchemaException',
                'dp.DataPackageException', 'dp.ValidationError', 'dp.CastError', 'df.ValidationError', 'df.ProcessorError',
-               'tabulator.SourceError', 'UnicodeDecodeError', 'ZeroDivisionError']
+               'tabulator.SourceError', 'UnicodeDecodeError', 'ZeroDivisionError', 'StopIteration']
 
 
 class Boom(Exception):
